@@ -64,6 +64,9 @@ PATTERNS = [
     (r"\.\s*claim_emissions\s*\(", lambda m: "claim_emissions"),
     (r"settle_emissions_and_get_transfer_amount\s*\(", lambda m: "settle_emissions"),
     (r"check_utilization_ratio\s*\(", lambda m: "check_utilization"),
+    (r"MarginfiError::InvalidFeeAta\b", lambda m: "fee_ata_check"),
+    (r"MarginfiError::InvalidEmissionsDestinationAccount\b", lambda m: "emis_dest_check"),
+    (r"\btransfer_checked\s*\(", lambda m: "transfer_checked"),
 ]
 
 
@@ -123,7 +126,8 @@ SIMPLE = {"asset_tags": "assetTags", "capacity": "capacity", "find_or_create": "
           "check_bankrupt": "checkBankrupt", "sort": "sort", "socialize_loss": "socializeLoss",
           "update_bank_cache": "updateBankCache", "update_withdrawn_equity": "updateWithdrawnEquity",
           "claim_emissions": "claimEmissions", "settle_emissions": "settleEmissions", "check_utilization": "checkUtilization",
-          "transfer:deposit_spl_transfer": "transferIn", "transfer:withdraw_spl_transfer": "transferOut"}
+          "transfer:deposit_spl_transfer": "transferIn", "transfer:withdraw_spl_transfer": "transferOut",
+          "fee_ata_check": "feeAtaCheck", "emis_dest_check": "emisDestCheck", "transfer_checked": "transferChecked"}
 
 PRELUDE = """-- GENERATED by translator/skeleton.py from programs/marginfi/src/instructions/**. Do not edit.
 namespace Mfi.Gen.Skel
@@ -142,6 +146,7 @@ inductive Ev
   | op (o : WOp) | transferIn | transferOut | healthInit | healthPreLiq | healthPostLiq | checkBankrupt
   | sort | socializeLoss | updateBankCache | signer (v : Vault) | acctFlag (f : AFlag)
   | updateWithdrawnEquity | claimEmissions | settleEmissions | checkUtilization | notFound
+  | feeAtaCheck | emisDestCheck | transferChecked
   deriving DecidableEq, Repr
 """
 
@@ -164,6 +169,57 @@ def lean_ev(e):
     return ".notFound"
 
 
+def all_fns(src):
+    """(name, body) of every fn item in a file (nested ones are part of their parent's body)."""
+    out, pos = [], 0
+    for m in re.finditer(r"\bfn\s+(\w+)\b", src):
+        if m.start() < pos:
+            continue
+        try:
+            i = src.index("{", m.end())
+        except ValueError:
+            continue
+        semi = src.find(";", m.end())
+        if semi != -1 and semi < i:
+            continue  # trait method declaration
+        depth, j = 0, i
+        while j < len(src):
+            if src[j] == "{":
+                depth += 1
+            elif src[j] == "}":
+                depth -= 1
+                if depth == 0:
+                    break
+            j += 1
+        out.append((m.group(1), src[i : j + 1]))
+        pos = j
+    return out
+
+
+def vault_uses():
+    """Every function under instructions/ that mentions the insurance- or fee-vault AUTHORITY as a
+    PDA signer (`bank_signer!(BankVaultType::X`, `bank_authority_seed!(BankVaultType::X` or the raw
+    `*_VAULT_AUTHORITY_SEED` inside a function body; account-constraint `seeds = [..]` live outside
+    function bodies and are address checks, not signatures)."""
+    uses = []
+    for root, _, files in sorted(os.walk(IX)):
+        for f in sorted(files):
+            if not f.endswith(".rs"):
+                continue
+            src = strip_comments(open(os.path.join(root, f)).read())
+            for name, body in all_fns(src):
+                for m in re.finditer(r"bank_(?:signer|authority_seed)!\s*\(\s*BankVaultType::(\w+)", body):
+                    uses.append((name, VAULTS.get(m.group(1), "unknown")))
+                for m in re.finditer(r"\b(INSURANCE|FEE|LIQUIDITY)_VAULT_AUTHORITY_SEED\b", body):
+                    uses.append((name, {"INSURANCE": "insurance", "FEE": "fee", "LIQUIDITY": "liquidity"}[m.group(1)]))
+    uses = sorted(set(uses))
+    fns = sorted({n for n, _ in uses})
+    lines = ["", "/-- every function under instructions/ whose body signs as (or derives the signer seeds of) a bank vault authority -/",
+             "inductive Fn", "  " + " ".join("| fn_%s" % n for n in fns), "  deriving DecidableEq, Repr", "",
+             "def vaultUses : List (Fn × Vault) := [" + ", ".join("(.fn_%s, .%s)" % (n, v) for n, v in uses) + "]"]
+    return lines
+
+
 def main():
     os.makedirs(GEN, exist_ok=True)
     lines = [PRELUDE]
@@ -176,6 +232,7 @@ def main():
             items = ", ".join(lean_ev(e) for e in sk)
         lines.append(f"def {name} : List Ev := [{items}]")
         names.append(name)
+    lines += vault_uses()
     lines += ["", "end Mfi.Gen.Skel", ""]
     text = "\n".join(lines)
     p = os.path.join(GEN, "Skeletons.lean")
